@@ -9,6 +9,7 @@ from .. import core, tlc, registry, interp
 from .common import generic_replay
 
 SLOW = {"riemann.ep_riemann.GenEOS_Solver", "radshocks.nED_radshocks.ED_Solver", "guderley.guderley.Guderley"}
+TEMPLATE_ONLY = {"riemann.ep_riemann.GenEOS_Solver@JWL"}      # slow: systematic templates only, not in the random behaviours
 
 
 def gen_module(wd, name, classes, extends, emit):
@@ -54,7 +55,8 @@ def run(tier):
         else:
             raise tlc.TLCError("InterpMC failed: %s" % mres["error"])
     # 2. behaviours over the concrete classes (seeded simulation)
-    classes = [c for c in registry.STATEFUL if tier == "thorough" and c != "guderley.guderley.Guderley" or c not in SLOW]
+    classes = [c for c in registry.STATEFUL if (tier == "thorough" and c != "guderley.guderley.Guderley" or c not in SLOW) and c not in TEMPLATE_ONLY]
+    tclasses = classes + sorted(TEMPLATE_ONLY)
     wd = tlc.workdir("C06gen")
     maxops = 6 if tier == "quick" else 7
     gen_module(wd, "InterpGen", classes, "Interp, Json", True)
@@ -70,7 +72,17 @@ def run(tier):
                 seen.add(k); behs.append(j["behaviour"])
     import random
     random.Random(seed + 5).shuffle(behs)
-    behs = behs[:(300 if tier == "quick" else 3000)]
+    behs = behs[:(200 if tier == "quick" else 3000)]
+    # systematic templates (spec/InterpTemplates.tla), stepped through Interp by TLC
+    gen_module(wd, "InterpTpl", tclasses, "InterpTemplates", False)
+    gen_cfg(wd, "InterpTpl.cfg", "PSpec", 0, ["INVARIANT HistoryIndependent", "INVARIANT PEmit"])
+    pres = tlc.must(tlc.run("InterpTpl", "InterpTpl.cfg", "C06tpl", workers=4, moddir=wd, timeout=1200))
+    ntpl = 0
+    for j in pres["json"]:
+        if "behaviour" in j:
+            k = json.dumps(j["behaviour"], sort_keys=True)
+            if k not in seen:
+                seen.add(k); behs.append(j["behaviour"]); ntpl += 1
     if len(behs) < 20:
         raise RuntimeError("behaviour generation produced too few behaviours (%d): %s" % (len(behs), gres["out"][-1500:]))
     # 3. replay + oracles in processes forked from this pristine parent (no solver was ever built here)
@@ -156,7 +168,7 @@ def run(tier):
                        "grid": br["cls"] in registry.GRID_DEPENDENT or br["cls"].startswith(("sedov.", "radshocks.")), "bid": len(binfo)})
         binfo.append(br)
         nontriv.add((br["cls"], br["cfg"], "batch"))
-    gen_module(wd, "TraceInterpGen", classes, "TraceInterp", False)
+    gen_module(wd, "TraceInterpGen", tclasses, "TraceInterp", False)
     gen_cfg(wd, "TraceInterpGen.cfg", "TSpec", 0, ["POSTCONDITION Accepted"])
     path = os.path.join(wd, "trace.json")
     with open(path, "w") as f:
@@ -187,8 +199,8 @@ def run(tier):
                    "depth in the cfg); behaviours over the concrete stateful classes generated by TLC -simulate (seed = VERIF_SEED) and kept when a call is preceded by "
                    "an operation on another object or an earlier call; every behaviour and every oracle runs in its own process forked from a pristine parent; "
                    "distinct = (class, parameter set, request variant, time, number of earlier calls)",
-           "model_states": mres.get("distinct", 0), "behaviours": len(behs), "processes": len(tasks), "calls_compared": ncalls, "batch_sweeps": len(bres), "batch_sweeps_raised": sorted({b_["cls"] for b_ in bres if b_["raised"]}),
-           "classes": sorted(classes), "known_findings_hit": verdict.known, "exhaustive": False}
+           "model_states": mres.get("distinct", 0), "behaviours": len(behs), "template_behaviours": ntpl, "processes": len(tasks), "calls_compared": ncalls, "batch_sweeps": len(bres), "batch_sweeps_raised": sorted({b_["cls"] for b_ in bres if b_["raised"]}),
+           "classes": sorted(tclasses), "known_findings_hit": verdict.known, "exhaustive": False}
     core.write_evidence("C06", tier, "model_checking", cov, time.time() - t0, len(verdict.violations),
                         ["a process forked from a parent that imported exactpack but never constructed a solver is equivalent to a fresh interpreter",
                          "black-box Noh: the oracle replays all operations on the same object (setters are configuration); other objects must not matter",
